@@ -168,7 +168,7 @@ func Adversarial() []AdvSet {
 		{Name: "A_", Fields: []F{{Name: "ys", Num: 12, Kind: Int32, Rep: true}, {Name: "zs", Num: 1, Kind: Int32, Rep: true}}},
 	}, nil))
 	for _, n := range ReflectMethodFieldNames {
-		add(adv("adv_oneof_named_"+n, "D8: a oneof named like a protoreflect.Message method (only fields are renamed)", []M{{Name: "A", Fields: []F{
+		add(adv("adv_oneof_named_"+n, "D8 (fixed): a oneof named like a protoreflect.Message method; the member is renamed like fields are", []M{{Name: "A", Fields: []F{
 			{Name: "a", Num: 1, Kind: String, Oneof: n}, {Name: "b", Num: 2, Kind: Int32, Oneof: n}, {Name: "c", Num: 3, Kind: Bool}}}}, nil))
 	}
 	add(adv("adv_oneof_named_keywords", "oneofs named like Go keywords and generated locals", []M{{Name: "A", Fields: []F{
@@ -178,6 +178,10 @@ func Adversarial() []AdvSet {
 		{Name: "g", Num: 7, Kind: String, Oneof: "sum"}, {Name: "h", Num: 8, Kind: Message, TypeName: ".adv.adv_oneof_named_keywords.A", Oneof: "sum"}}}}, nil))
 	add(adv("adv_rewrite_makes_getter_clash", "field `has` becomes Has_ with getter GetHas_; a field `get_has_` has the Go name GetHas_", []M{{Name: "A", Fields: []F{
 		{Name: "has", Num: 1, Kind: String}, {Name: "get_has_", Num: 2, Kind: String}}}}, nil))
+	add(adv("adv_rewrite_makes_oneof_member_clash", "a oneof named `type` next to a field `type_`: renaming the oneof to Type_ (as fields are) would duplicate the member", []M{{Name: "A", Fields: []F{
+		{Name: "a", Num: 1, Kind: String, Oneof: "type"}, {Name: "b", Num: 2, Kind: Int32, Oneof: "type"}, {Name: "type_", Num: 3, Kind: String}}}}, nil))
+	add(adv("adv_rewrite_makes_oneof_getter_clash", "a oneof named `has` next to a field `get_has_`: renaming the oneof to Has_ gives it the getter GetHas_ next to member GetHas_", []M{{Name: "A", Fields: []F{
+		{Name: "a", Num: 1, Kind: String, Oneof: "has"}, {Name: "b", Num: 2, Kind: Int32, Oneof: "has"}, {Name: "get_has_", Num: 3, Kind: String}}}}, nil))
 	add(adv("adv_oneof_member_vs_nested_name", "oneof wrapper type A_B next to nested message A.B (protogen appends _)", []M{{Name: "A",
 		Fields: []F{{Name: "b", Num: 1, Kind: String, Oneof: "o"}, {Name: "c", Num: 2, Kind: Message, TypeName: ".adv.adv_oneof_member_vs_nested_name.A.B", Oneof: "o"}},
 		Nested: []M{{Name: "B", Fields: []F{{Name: "x", Num: 1, Kind: Int32}}}}}}, nil))
